@@ -52,6 +52,13 @@ def gen_import(rnd):
             continue
         used_locals.add(local)
         parts.append(n if a is None else f"{n} as {a}")
+    if rnd.random() < .15 and picked:
+        # the same name again under another local name
+        n = rnd.choice(picked)
+        extra = rnd.choice(["again_" + n, "_" + n + "2"])
+        if extra not in used_locals:
+            parts.insert(rnd.randint(0, len(parts)), f"{n} as {extra}")
+            used_locals.add(extra)
     style = rnd.random()
     if style < .5 or len(parts) == 1:
         return f"from {mod} import " + ", ".join(parts)
